@@ -283,19 +283,52 @@ theorem late_accept_refused (w : World) (g c : Nat) (hst : w.ctors[g]? = some .s
 
 /-! ## 6. an incapable peer is reported -/
 
-/-- the peer's `versions` share no dilation version with ours (this includes `{}`, a dict without
-    `can-dilate`, an empty list and a disjoint list) -/
-abbrev Incapable (v : Vers) : Prop := falsy (findShared Consts.DILATION_VERSIONS v.can) = true
+/-- the peer's `versions` (a JSON object; its `can-dilate` any JSON that `_find_shared_versions` can
+    put into a set) shares no dilation version with ours.  This includes `{}`, a dict without
+    `can-dilate`, an empty list, a list of foreign strings, of numbers / booleans / nulls, a
+    `can-dilate` that is a string or an empty dict. -/
+def Incapable (v : Vers) : Prop := ∃ dv, sharedVersion v = .ok dv ∧ falsy dv = true
 
-example : Incapable ⟨false, []⟩ ∧ Incapable ⟨true, []⟩ ∧ Incapable ⟨true, ["vetch"]⟩ ∧ ¬ Incapable ⟨true, ["vetch", "ged"]⟩ := by
-  decide
+theorem Incapable.notNull {v : Vers} (h : Incapable v) : v.isNull = false := by
+  obtain ⟨dv, hs, _⟩ := h
+  cases v <;> simp_all [sharedVersion, J.isNull]
+
+example : Incapable (.obj []) ∧ Incapable (.obj [("app_versions", .obj [])]) ∧
+    Incapable (.obj [("can-dilate", .arr [])]) ∧ Incapable (.obj [("can-dilate", .arr [.str "vetch"])]) ∧
+    Incapable (.obj [("can-dilate", .arr [.num false, .num true, .bool true, .null, .str "x"])]) ∧
+    Incapable (.obj [("can-dilate", .str "ged")]) ∧ Incapable (.obj [("can-dilate", .obj [])]) :=
+  ⟨⟨none, rfl, rfl⟩, ⟨none, rfl, rfl⟩, ⟨none, rfl, rfl⟩, ⟨none, rfl, rfl⟩, ⟨none, rfl, rfl⟩, ⟨none, rfl, rfl⟩,
+   ⟨none, rfl, rfl⟩⟩
+
+/-- a capable peer is not `Incapable` -/
+example : ¬ Incapable (.obj [("can-dilate", .arr [.str "vetch", .str "ged"])]) := by
+  rintro ⟨dv, hs, hf⟩
+  have : sharedVersion (.obj [("can-dilate", .arr [.str "vetch", .str "ged"])]) = .ok (some "ged") := rfl
+  rw [this] at hs
+  cases hs
+  simp [falsy] at hf
+
+/-- **Finding on the current tree** (`old_peer_reported` does NOT extend to every JSON a peer can send): a
+    `can-dilate` list holding a list or a dict (unhashable), or a `can-dilate` that is a number, a
+    boolean or null (not iterable), makes `_find_shared_versions` raise TypeError before `fail()`
+    and `start()`: the exception goes to the caller (Boss → `error`), `_main_channel` stays
+    unset and every pending or future connect() is left waiting.  (Harness signatures
+    `…:unhashable-can-dilate-entry`, `…:can-dilate-not-iterable`.) -/
+theorem old_peer_reported_fails_for_malformed_can_dilate (w : World) (hm : w.hasMgr = true) :
+    (∀ v ∈ [J.obj [("can-dilate", .arr [.arr [.num false]])], .obj [("can-dilate", .arr [.str "x", .obj []])],
+            .obj [("can-dilate", .num false)], .obj [("can-dilate", .null)], .obj [("can-dilate", .bool true)]],
+      step w (.versions v) = (w, .raised .typeError)) := by
+  intro v hv
+  simp only [List.mem_cons, List.mem_nil_iff, or_false] at hv
+  rcases hv with rfl | rfl | rfl | rfl | rfl <;> simp only [step, gotVersions, hm, ↓reduceIte] <;> rfl
 
 /-- versions arriving after `dilate()`: `_main_channel` holds the Failure, nobody is left waiting
     on it, and every connect() that was waiting has its errback queued -/
 theorem old_peer_reported_live (w : World) (v : Vers) (hm : w.hasMgr = true) (hv : Incapable v) :
     let w' := (step w (.versions v)).1
     w'.main = .failed ∧ w'.mainObs = [] ∧ ∀ id ∈ w.mainObs, Thunk.waiter id false ∈ w'.queue := by
-  have := incapable_fails v w hv
+  obtain ⟨dv, hs, hf⟩ := hv
+  have := incapable_fails v w dv hs hf
   simp only [step, gotVersions, hm, ↓reduceIte]
   rcases hr : mgrGotVersions v w with ⟨u, e⟩
   rw [hr] at this
@@ -314,7 +347,8 @@ theorem old_peer_reported_replay (w : World) (v : Vers) (hc : w.called = false) 
   have h1 : (replayVersions u).1.main = .failed := by
     unfold replayVersions
     rw [hk, hrv]
-    exact (incapable_fails v u hv).1
+    obtain ⟨dv, hs, hf⟩ := hv
+    exact (incapable_fails v u dv hs hf).1
   rcases hr : replayVersions u with ⟨u', e⟩
   rw [hr] at h1
   cases e with
@@ -379,12 +413,13 @@ theorem old_peer_reported (v : Vers) (hv : Incapable v) (nl al : Bool) (my : Str
       [.failed, .failed, .failed, .failed, .failed, .failed] := by
   have hrv : replayVersions? (some v) = some v := by
     simp [replayVersions?, Flags.pending_versions_guard_is_not_none]
-  have hv' : falsy (findShared Consts.DILATION_VERSIONS v.can) = true := hv
+  have hnn := hv.notNull
+  obtain ⟨dv, hs, hv'⟩ := hv
   have hrn : replayVersions? none = none := by simp [replayVersions?]
   refine ⟨?_, ?_, ?_, ?_⟩ <;>
     simp [run, step, hrn, Terminator.init, World.init, dilate, replayKey, replayVersions, hrv, drainMsgs, andThen, connect, connectAs,
-      resolveWaiter, gotVersions,
-      mgrGotVersions, hv', mainError, mInput, Manager.init, Manager.table, mOuts, mOut, sendGen, emit, turn, runThunks,
+      resolveWaiter, gotVersions, hnn,
+      mgrGotVersions, mgrGotVersionsWith, hs, hv', mainError, mInput, Manager.init, Manager.table, mOuts, mOut, sendGen, emit, turn, runThunks,
       runThunk, ofRes, gotKey]
 
 /-! ## 7. outside the environment: what a non-conformant peer can do -/
@@ -398,7 +433,7 @@ def fresh : World := World.init false false "8000000000000000"
     ABANDONING for ever and a later close() never completes.  (Replayed on the real code by the
     harness: signature `closed-never-fires:reconnect-to-leader`.) -/
 theorem reconnect_to_leader_blocks_shutdown :
-    let w := run fresh ([.dilate, .key, .versions ⟨true, ["ged"]⟩, .msg (.please "1000000000000000"), .inbound 0, .kcm 0,
+    let w := run fresh ([.dilate, .key, .versions (canDilate ["ged"]), .msg (.please "1000000000000000"), .inbound 0, .kcm 0,
       .turn, .msg .reconnect, .lost 0, .turn] ++ closeSeq)
     w.ts = .S_stoppingD ∧ w.ms = .STOPPING ∧ (settle w).ts = .S_stoppingD ∧ (settle w).closed = 0 := by decide
 
@@ -407,14 +442,14 @@ theorem reconnect_to_leader_blocks_shutdown :
     AttributeError inside `Dilator.stop()` and `closed` never fires.  (Signature
     `closed-never-fires:reflected-please`.) -/
 theorem reflected_please_blocks_shutdown :
-    let w := run fresh ([.dilate, .key, .versions ⟨true, ["ged"]⟩, .msg (.please "8000000000000000")] ++ closeSeq)
+    let w := run fresh ([.dilate, .key, .versions (canDilate ["ged"]), .msg (.please "8000000000000000")] ++ closeSeq)
     w.ts = .S_stoppingD ∧ w.ms = .STOPPED ∧ w.fired = false ∧ (settle w).ts = .S_stoppingD ∧ (settle w).closed = 0 := by
   decide
 
 /-! ## non-vacuity: the hypotheses are met by concrete non-trivial runs -/
 
 def standardRun (side : String) : List Ev :=
-  [.dilate, .key, .versions ⟨true, ["ged"]⟩, .connect, .msg (.please side), .msg (.hints 2), .dial 0, .dialok 0,
+  [.dilate, .key, .versions (canDilate ["ged"]), .connect, .msg (.please side), .msg (.hints 2), .dial 0, .dialok 0,
    .inbound 0, .kcm 0, .kcm 1, .turn, .turn, .term .close, .term .nameplate_done, .term .mailbox_done]
 
 theorem standardRun_ok : okRun "1000000000000000" fresh (standardRun "1000000000000000") := by
@@ -439,7 +474,7 @@ example : (settle (step (run fresh (standardRun "1000000000000000")) (.term .sto
     has fired `signal_reconnect` (the connection is only *asked* to close, the Manager is still
     CONNECTED), and the application closes before the transport reports the loss -/
 def silentPeerRun : List Ev :=
-  [.dilate, .key, .versions ⟨true, ["ged"]⟩, .msg (.please "1000000000000000"), .inbound 0, .kcm 0, .turn,
+  [.dilate, .key, .versions (canDilate ["ged"]), .msg (.please "1000000000000000"), .inbound 0, .kcm 0, .turn,
    .expire, .expire, .term .close, .term .nameplate_done, .term .mailbox_done]
 
 theorem silentPeerRun_ok : okRun "1000000000000000" fresh silentPeerRun := by
